@@ -24,7 +24,9 @@ func VerifC26GetUtxos(n *native.NativeService, chain uint64, key string) (*Utxos
 func VerifC26GetStxos(n *native.NativeService, chain uint64, key string) (*Utxos, error) {
 	return getStxos(n, chain, key)
 }
-func VerifC26PutUtxos(n *native.NativeService, chain uint64, key string, u *Utxos) { putUtxos(n, chain, key, u) }
+func VerifC26PutUtxos(n *native.NativeService, chain uint64, key string, u *Utxos) {
+	putUtxos(n, chain, key, u)
+}
 func VerifC26ChooseUtxos(n *native.NativeService, chain uint64, amount int64, outs []*wire.TxOut, rk []byte, m, nn int) ([]*Utxo, int64, int64, error) {
 	return chooseUtxos(n, chain, amount, outs, rk, m, nn)
 }
